@@ -3987,7 +3987,8 @@ class Wallet(object):
             else:
                 fee_estimate = 0
             if isinstance(fee, str):
-                fee = fee_estimate
+                # Named fee: fee per kb is known now, calculate the fee when the inputs are selected
+                fee = None
 
         # Add inputs
         sequence = 0xffffffff
